@@ -9,7 +9,12 @@ use serde_json::{json, Value};
 use std::cell::Cell;
 
 pub fn subs() -> Vec<Sub> {
-    vec![Sub { name: "random", run: run_random }, Sub { name: "sweep", run: run_sweep }, Sub { name: "lengths", run: run_lengths }]
+    vec![
+        Sub { name: "random", run: run_random },
+        Sub { name: "sweep", run: run_sweep },
+        Sub { name: "pairsweep", run: run_pairsweep },
+        Sub { name: "lengths", run: run_lengths },
+    ]
 }
 
 fn run_random(ctx: &Ctx) -> CheckResult {
@@ -74,6 +79,61 @@ fn run_sweep(ctx: &Ctx) -> CheckResult {
         }
     }
     ctx.exhaustive("every position x every byte value 0..=255 of a valid string (with and without prefix) x 3 prefix modes");
+    Ok(())
+}
+
+/// The digit decoders work on two-character pairs: for every header pair and for the first,
+/// a middle and the last body pair (thorough: every body pair), ALL 256 x 256 character
+/// combinations on a valid base string, i.e. the complete domain of the pair decoders of this
+/// build configuration.
+pub fn run_pairsweep(ctx: &Ctx) -> CheckResult {
+    let strict = ctx.api.caps().strict;
+    let thorough = ctx.tier == crate::ctx::Tier::Thorough;
+    for va in ctx.api.variants() {
+        let v = va.v();
+        let mut base = ctx.sample_values(&format!("pairbase/{}", v.name), 1, &proptest::collection::vec(any::<u8>(), v.size())).remove(0);
+        if strict {
+            base[0] %= 49;
+            base[v.ck] %= 170;
+        }
+        let s0 = vmodel::text::encode(v, &base, true);
+        let n_pairs = v.size();
+        let hdr = v.ck + 2;
+        let mut pairs: Vec<usize> = (0..hdr).collect();
+        if thorough {
+            pairs.extend(hdr..n_pairs);
+        } else {
+            pairs.extend([hdr, (hdr + n_pairs) / 2, n_pairs - 1]);
+        }
+        let res = super::common::par_map(ctx.threads, &pairs, |&k| -> Option<Vec<u8>> {
+            let st = CaseStats::null();
+            let mut s = s0.clone();
+            let pos = 2 + 2 * k;
+            for x in 0..=255u8 {
+                for y in 0..=255u8 {
+                    s[pos] = x;
+                    s[pos + 1] = y;
+                    if case_parse(va, &s, None, strict, &st).is_err() {
+                        return Some(s);
+                    }
+                }
+            }
+            None
+        });
+        {
+            let mut ev = ctx.ev.borrow_mut();
+            ev.evaluations += pairs.len() as u64 * 65536 * 3;
+            ev.nontrivial_enumerated += pairs.len() as u64 * 65535;
+        }
+        ctx.subcheck("pairsweep", pairs.len() as u64 * 65536);
+        if let Some(s) = res.into_iter().flatten().next() {
+            let live = Cell::new(true);
+            let st = ctx.stats("pairsweep", &live);
+            let m = case_parse(va, &s, None, strict, &st).err().unwrap_or_else(|| "did not reproduce".into());
+            return Err(ctx.violation("parse", m, json!({"variant": v.name, "text": hex(&s), "prefix": prefix_json(None)})));
+        }
+    }
+    ctx.exhaustive("all 256x256 character combinations of every header digit pair and of the first / middle / last body digit pair (thorough: every body pair)");
     Ok(())
 }
 
